@@ -643,10 +643,721 @@ Theorem C08_parse_no_panic_udp : forall buf n,
   (snd (udp_parse_a buf n) <= 4 * Z.of_nat (List.length (firstn n buf)) + 65536)%Z.
 Proof. exact C08_parse.C08_parse_no_panic_udp. Qed.
 
-Theorem C08_legacy_refuted :
+Theorem C08_parse_legacy_refuted :
   snd (fst (parse_conn_legacy_full 4096%nat [C08_parse.absurd "4611686018427387904"])) = EndPanic /\
   udp_parse_legacy (C08_parse.absurd "4611686018427387904") 68%nat = Panic /\
   snd (parse_conn_legacy_full 4096%nat [C08_parse.absurd "1073741824"]) = 1073741824%Z /\
   parse_conn_full 4096%nat [C08_parse.absurd "4611686018427387904"] = ([], EndErr, 65536%Z) /\
   parse_conn_full 4096%nat [C08_parse.absurd "1073741824"] = ([], EndErr, 65536%Z).
 Proof. exact C08_parse.C08_legacy_refuted. Qed.
+
+(* ------------------------------------------------------------------ C01 *)
+From Model Require Import Bytes Wire Uri Hdr Message Msg StaticRoute RoundRobin Pins Proxy RunProxy SpecC14 SpecProxy SpecProxy2.
+From Model.proofs Require MsgLemmas C01.
+Section P_C01.
+Import MsgLemmas C01.
+Theorem C01_relay_preserves :
+  forall e peer peer_port from rs tcp m x x',
+    stable m ->
+    process_message e peer peer_port from rs tcp m x = Ok x' ->
+    exists pre, x_outs x' = x_outs x ++ pre /\
+      forall d b, In (d, b) pre ->
+        match d with
+        | DDial _ _ _ => b = []
+        | _ => exists m', b = write_message m' /\ view m' = view m
+        end.
+Proof. first [ exact C01.C01_relay_preserves | intros; eapply C01.C01_relay_preserves; eassumption ]. Qed.
+Theorem C01_proxy_step_udp :
+  forall fx c now branch st li src sport data m rest st' outs,
+    parse_message data = Ok (m, rest) -> stable m ->
+    proxy_step fx c now branch st (EvUdp li src sport data) = Ok (st', outs) ->
+    forall d b, In (d, b) outs -> good m d b.
+Proof. first [ exact C01.C01_proxy_step_udp | intros; eapply C01.C01_proxy_step_udp; eassumption ]. Qed.
+Theorem C01_proxy_step_tcp :
+  forall fx c now branch st cid data st' outs,
+    (forall m, In m (parse_stream (S (List.length data)) data) -> stable m) ->
+    proxy_step fx c now branch st (EvTcpData cid data) = Ok (st', outs) ->
+    forall d b, In (d, b) outs ->
+      exists m, In m (parse_stream (S (List.length data)) data) /\ good m d b.
+Proof. first [ exact C01.C01_proxy_step_tcp | intros; eapply C01.C01_proxy_step_tcp; eassumption ]. Qed.
+Theorem C01_stable_on_c14_domain m : Forall c14_domain_h (m_headers m) -> stable m.
+Proof. first [ exact C01.stable_on_c14_domain | intros; eapply C01.stable_on_c14_domain; eassumption ]. Qed.
+Theorem C01_stable_necessary :
+  parse_cseq (s2b "0001 INVITE") = Ok {| cs_seq := 1; cs_method := s2b "INVITE" |} /\
+  cseq_print {| cs_seq := 1; cs_method := s2b "INVITE" |} = s2b "1 INVITE" /\
+  ~ stable ex_unstable /\
+  view (fst (s_get_cseq ex_unstable)) <> view ex_unstable /\
+  view_hs (m_headers (fst (s_get_cseq ex_unstable))) = [(s2b "CSeq", s2b "1 INVITE")].
+Proof. first [ exact C01.C01_stable_necessary | intros; eapply C01.C01_stable_necessary; eassumption ]. Qed.
+Theorem C01_single_content_length m :
+  write_message m =
+    start_line_print (m_start m) ++ crlf ++ flat_map header_print (emitted_headers m) ++ crlf ++ m_body m
+  /\ emitted_headers m = filter (fun h => negb (is_cl_h h)) (m_headers m) ++ [cl_header m]
+  /\ Forall (fun h => is_cl_h h = false) (filter (fun h => negb (is_cl_h h)) (m_headers m))
+  /\ is_cl_h (cl_header m) = true
+  /\ header_print (cl_header m) =
+       s2b "Content-Length: " ++ itoa (Z.of_nat (List.length (m_body m))) ++ crlf
+  /\ List.length (filter is_cl_h (emitted_headers m)) = 1%nat.
+Proof. first [ exact C01.C01_single_content_length | intros; eapply C01.C01_single_content_length; eassumption ]. Qed.
+Theorem C01_single_content_length_read m :
+  line_safe m -> start_ok (start_line_print (m_start m)) ->
+  (Z.of_nat (List.length (m_body m)) <= int_max)%Z ->
+  j_read (write_message m) =
+    Some {| jm_start := start_line_print (m_start m);
+            jm_headers := map (fun h => jpair (hpair h)) (emitted_headers m);
+            jm_body := m_body m; jm_rest := [];
+            jm_has_cl := true; jm_cl_count := 1;
+            jm_cl_value := Some (Z.of_nat (List.length (m_body m))) |}.
+Proof. first [ exact C01.C01_single_content_length_read | intros; eapply C01.C01_single_content_length_read; eassumption ]. Qed.
+Theorem C01_judge_bridge_partial b jin m rest m' :
+  j_read b = Some jin -> parse_message b = Ok (m, rest) ->
+  start_line_print (m_start m) = jm_start jin ->
+  view m' = view m -> line_safe m' ->
+  exists jo, j_read (write_message m') = Some jo /\ judge_C01_pair jin jo = 0%nat.
+Proof. first [ exact C01.C01_judge_bridge_partial | intros; eapply C01.C01_judge_bridge_partial; eassumption ]. Qed.
+Theorem C01_judge_bridge_request b jin m rest m' meth u ver a :
+  j_read b = Some jin -> in_domain_C01 jin = true -> parse_message b = Ok (m, rest) ->
+  j_is_response jin = false -> fields (jm_start jin) = [meth; u; ver] ->
+  wf_addr a = true -> u = rp_addr a ->
+  view m' = view m -> line_safe m' ->
+  exists jo, j_read (write_message m') = Some jo /\ judge_C01_pair jin jo = 0%nat.
+Proof. first [ exact C01.C01_judge_bridge_request | intros; eapply C01.C01_judge_bridge_request; eassumption ]. Qed.
+Theorem C01_judge_bridge_response b jin m rest m' ver c r1 rs code :
+  j_read b = Some jin -> in_domain_C01 jin = true -> parse_message b = Ok (m, rest) ->
+  j_is_response jin = true -> fields (jm_start jin) = ver :: c :: r1 :: rs ->
+  atoi c = Some code -> itoa code = c ->
+  view m' = view m -> line_safe m' ->
+  exists jo, j_read (write_message m') = Some jo /\ judge_C01_pair jin jo = 0%nat.
+Proof. first [ exact C01.C01_judge_bridge_response | intros; eapply C01.C01_judge_bridge_response; eassumption ]. Qed.
+Theorem C01_judge_relay b jin m rest e peer peer_port from rs tcp x x' :
+  j_read b = Some jin -> parse_message b = Ok (m, rest) ->
+  start_line_print (m_start m) = jm_start jin -> stable m ->
+  process_message e peer peer_port from rs tcp m x = Ok x' ->
+  exists pre, x_outs x' = x_outs x ++ pre /\
+    forall d o, In (d, o) pre ->
+      match d with
+      | DDial _ _ _ => o = []
+      | _ => exists m', o = write_message m' /\
+                        (line_safe m' -> exists jo, j_read o = Some jo /\ judge_C01_pair jin jo = 0%nat)
+      end.
+Proof. first [ exact C01.C01_judge_relay | intros; eapply C01.C01_judge_relay; eassumption ]. Qed.
+Theorem C01_legacy_refuted :
+  parse_message ex_legacy_input = Ok (parsed ex_legacy_input, []) /\
+  option_map in_domain_C01 (j_read ex_legacy_input) = Some true /\
+  stable (parsed ex_legacy_input) /\
+  write_message_legacy (parsed ex_legacy_input) =
+    s2b "INVITE sip:svc@example.com SIP/2.0" ++ crlf ++ s2b "l: 3" ++ crlf ++
+    s2b "Content-Length: 3" ++ crlf ++ crlf ++ s2b "abc" /\
+  option_map jm_cl_count (j_read (write_message_legacy (parsed ex_legacy_input))) = Some 2%nat /\
+  judge_bytes ex_legacy_input (write_message_legacy (parsed ex_legacy_input)) = Some 5%nat /\
+  option_map jm_cl_count (j_read (write_message (parsed ex_legacy_input))) = Some 1%nat /\
+  judge_bytes ex_legacy_input (write_message (parsed ex_legacy_input)) = Some 0%nat.
+Proof. first [ exact C01.C01_legacy_refuted | intros; eapply C01.C01_legacy_refuted; eassumption ]. Qed.
+End P_C01.
+
+(* ------------------------------------------------------------------ C07 *)
+From Model Require Import Bytes Wire Uri Hdr Message Msg StaticRoute RoundRobin Pins Proxy RunProxy SpecC14 SpecProxy SpecProxy2.
+From Model.proofs Require C07.
+Section P_C07.
+Import C07.
+Theorem C07_stamp : forall peer port m pre h post v rest,
+  m_headers m = pre ++ h :: post -> nomatch VIA pre -> same_header (h_name h) VIA = true ->
+  hval_vias (h_val h) = Some (v :: rest) ->
+  s_set_received peer port m =
+    ({| m_start := m_start m;
+        m_headers := pre ++ {| h_name := h_name h; h_val := HVia (stamp peer port v :: rest) |} :: post;
+        m_body := m_body m |}, Ok tt).
+Proof. first [ exact C07.C07_stamp | intros; eapply C07.C07_stamp; eassumption ]. Qed.
+Theorem C07_stamp_params : forall peer port v,
+  v_params (stamp peer port v) =
+    (if kv_has (s2b "rport") (kv_set (s2b "received") peer (v_params v))
+     then kv_set (s2b "rport") (itoa port) (kv_set (s2b "received") peer (v_params v))
+     else kv_set (s2b "received") peer (v_params v)) /\
+  v_name (stamp peer port v) = v_name v /\ v_version (stamp peer port v) = v_version v /\
+  v_transport (stamp peer port v) = v_transport v /\ v_host (stamp peer port v) = v_host v /\
+  v_port (stamp peer port v) = v_port v.
+Proof. first [ exact C07.C07_stamp_params | intros; eapply C07.C07_stamp_params; eassumption ]. Qed.
+Theorem C07_kv_set_char : forall k v l,
+  kv_get k (kv_set k v l) = Some v /\
+  (forall k', k' <> k -> kv_get k' (kv_set k v l) = kv_get k' l) /\
+  filter (fun p => negb (beq (k_key p) k)) (kv_set k v l) = filter (fun p => negb (beq (k_key p) k)) l /\
+  (kv_has k l = true -> exists a p b, l = a ++ p :: b /\ k_key p = k /\ kv_get k a = None /\
+                                      kv_set k v l = a ++ {| k_key := k_key p; k_val := v |} :: b) /\
+  (kv_has k l = false -> kv_set k v l = l ++ [{| k_key := k; k_val := v |}]).
+Proof. first [ exact C07.C07_kv_set_char | intros; eapply C07.C07_kv_set_char; eassumption ]. Qed.
+Theorem C07_pipeline : forall e peer port from rs tcp m0 x x',
+  is_request m0 = true ->
+  process_message e peer port from rs tcp m0 x = Ok x' ->
+  exists outs, x_outs x' = x_outs x ++ outs /\
+               Forall (relayed_as (e_branch e) (stamp_hdrs rs peer port (via_hdrs m0))) outs.
+Proof. first [ exact C07.C07_pipeline | intros; eapply C07.C07_pipeline; eassumption ]. Qed.
+Theorem C07_wiring : forall lc,
+  item_rs_of true lc = negb (lc_no_received lc) /\
+  pa_received_support (wire_proxy lc) = negb (lc_no_received lc).
+Proof. first [ exact C07.C07_wiring | intros; eapply C07.C07_wiring; eassumption ]. Qed.
+Theorem C07_wiring_legacy : forall lc, item_rs_of false lc = lc_def_route lc.
+Proof. first [ exact C07.C07_wiring_legacy | intros; eapply C07.C07_wiring_legacy; eassumption ]. Qed.
+Theorem C07_wired_reachable : forall fx c st, fx_wiring fx = true -> reachable fx c st -> wired c (st_conns st).
+Proof. first [ exact C07.C07_wired_reachable | intros; eapply C07.C07_wired_reachable; eassumption ]. Qed.
+Theorem C07_step_udp : forall fx c now br st li src sport data lc m rest st' outs,
+  nth_opt (c_listens c) li = Some lc -> parse_message data = Ok (m, rest) -> is_request m = true ->
+  proxy_step fx c now br st (EvUdp li src sport data) = Ok (st', outs) ->
+  Forall (relayed_as br (stamp_hdrs (item_rs_of (fx_wiring fx) lc) src sport (via_hdrs m))) outs.
+Proof. first [ exact C07.C07_step_udp | intros; eapply C07.C07_step_udp; eassumption ]. Qed.
+Theorem C07_step_tcp : forall fx c now br st cid data cn lc st' outs,
+  find (fun x => Nat.eqb (cn_id x) cid) (st_conns st) = Some cn ->
+  nth_opt (c_listens c) (cn_li cn) = Some lc ->
+  proxy_step fx c now br st (EvTcpData cid data) = Ok (st', outs) ->
+  exists oss, outs = List.concat oss /\
+    Forall2 (fun m os => is_request m = true ->
+               Forall (relayed_as br (stamp_hdrs (cn_received_support cn) (cn_peer cn) (cn_peer_port cn) (via_hdrs m))) os)
+            (firstn (List.length oss) (parse_stream (S (List.length data)) data)) oss.
+Proof. first [ exact C07.C07_step_tcp | intros; eapply C07.C07_step_tcp; eassumption ]. Qed.
+End P_C07.
+
+(* ------------------------------------------------------------------ C02 *)
+From Model Require Import Bytes Wire Uri Hdr Message Msg StaticRoute RoundRobin Pins Proxy RunProxy SpecC14 SpecProxy SpecProxy2.
+From Model.proofs Require C07 C02.
+Section P_C02.
+Import C07 C02.
+Theorem C02_response_general : forall e from m x, is_request m = false ->
+  match top_view (pop_view (via_hdrs m)) with
+  | Some v2 =>
+      exists m4 pins',
+        handle_message e from m x =
+          send_message e (hop_host v2) (hop_port v2) (v_transport v2) m4
+            {| x_learned := x_learned x; x_p := with_pins (x_p x) pins'; x_conns := x_conns x;
+               x_world := x_world x; x_outs := x_outs x |} /\
+        m_start m4 = m_start m /\ m_body m4 = m_body m /\ via_hdrs m4 = pop_view (via_hdrs m)
+  | None => fst (handle_message e from m x) = x
+  end.
+Proof. first [ exact C02.C02_response_general | intros; eapply C02.C02_response_general; eassumption ]. Qed.
+Theorem C02_response_hop : forall e from m x v1 v2 rest1 t,
+  is_response m = true ->
+  (via_hdrs m = Some (v1 :: v2 :: rest1) :: t          (* comma list in the first Via header *)
+   \/ via_hdrs m = Some [v1] :: Some (v2 :: rest1) :: t)  (* repeated header lines *) ->
+  exists m4 pins',
+    handle_message e from m x =
+      send_message e (hop_host v2) (hop_port v2) (v_transport v2) m4
+        {| x_learned := x_learned x; x_p := with_pins (x_p x) pins'; x_conns := x_conns x;
+           x_world := x_world x; x_outs := x_outs x |} /\
+    m_start m4 = m_start m /\ m_body m4 = m_body m /\
+    via_hdrs m4 = Some (v2 :: rest1) :: t /\
+    snd (decode_all_vias (m_headers m)) = v1 :: snd (decode_all_vias (m_headers m4)).
+Proof. first [ exact C02.C02_response_hop | intros; eapply C02.C02_response_hop; eassumption ]. Qed.
+Theorem C02_single_via_dropped : forall e from m x,
+  is_response m = true ->
+  (via_hdrs m = [] \/ (exists l, via_hdrs m = [Some l] /\ (List.length l <= 1)%nat)) ->
+  fst (handle_message e from m x) = x.
+Proof. first [ exact C02.C02_single_via_dropped | intros; eapply C02.C02_single_via_dropped; eassumption ]. Qed.
+Theorem C02_undecodable_dropped : forall e from m x t,
+  is_response m = true ->
+  (via_hdrs m = None :: t                                  (* first Via header does not decode *)
+   \/ (exists l, via_hdrs m = Some l :: None :: t /\ (List.length l <= 1)%nat)  (* the next one does not *)
+   \/ (exists l, via_hdrs m = Some l :: Some [] :: t /\ (List.length l <= 1)%nat)) ->
+  fst (handle_message e from m x) = x.
+Proof. first [ exact C02.C02_undecodable_dropped | intros; eapply C02.C02_undecodable_dropped; eassumption ]. Qed.
+Theorem C02_dest_unsupported : forall e host port tr m x,
+  supported_proto (to_lower tr) = false ->
+  x_outs (fst (send_message e host port tr m x)) = x_outs x.
+Proof. first [ exact C02.C02_dest_unsupported | intros; eapply C02.C02_dest_unsupported; eassumption ]. Qed.
+Theorem C02_dest_udp : forall e host port tr m x ip,
+  to_lower tr = s2b "udp" -> get_ip (e_cfg e) host = Some ip -> resolvable ip port = true ->
+  udp_slot_ok ip port (x_p x) -> fits_datagram (write_message (sent_msg m)) = true ->
+  x_outs (fst (send_message e host port tr m x)) = x_outs x ++ [(DUdp ip port, write_message (sent_msg m))].
+Proof. first [ exact C02.C02_dest_udp | intros; eapply C02.C02_dest_udp; eassumption ]. Qed.
+Theorem C02_dest_tcp : forall e host port tr m x,
+  fx_udp_via_listener (e_fx e) = true -> to_lower tr = s2b "tcp" -> tcp_slot_ok (x_p x) ->
+  exists outs, x_outs (fst (send_message e host port tr m x)) = x_outs x ++ outs /\
+               tcp_shape (write_message (sent_msg m)) outs.
+Proof. first [ exact C02.C02_dest_tcp | intros; eapply C02.C02_dest_tcp; eassumption ]. Qed.
+Theorem C02_tcp_slot_reachable : forall fx c st,
+  fx_udp_via_listener fx = true -> reachable fx c st -> Forall tcp_slot_ok (st_proxies st).
+Proof. first [ exact C02.C02_tcp_slot_reachable | intros; eapply C02.C02_tcp_slot_reachable; eassumption ]. Qed.
+Theorem C02_independent_of_pins : forall e from m x pins' rr' gen' l',
+  is_response m = true -> fx_udp_via_listener (e_fx e) = true -> udp_known (x_p x) ->
+  let y := {| x_learned := l'; x_p := graft pins' rr' gen' (x_p x); x_conns := x_conns x;
+              x_world := x_world x; x_outs := x_outs x |} in
+  x_outs (fst (handle_message e from m y)) = x_outs (fst (handle_message e from m x)) /\
+  x_conns (fst (handle_message e from m y)) = x_conns (fst (handle_message e from m x)) /\
+  x_world (fst (handle_message e from m y)) = x_world (fst (handle_message e from m x)).
+Proof. first [ exact C02.C02_independent_of_pins | intros; eapply C02.C02_independent_of_pins; eassumption ]. Qed.
+Theorem C02_roundtrip_return : forall e from r x br t0 src sport v rest t,
+  is_response r = true -> (int_min <= sport <= int_max)%Z ->
+  via_hdrs r = Some [own_via br t0] :: Some (stamp src sport v :: rest) :: t ->
+  exists m4 pins',
+    handle_message e from r x =
+      send_message e src (if kv_has (s2b "rport") (v_params v) then sport else via_get_port v) (v_transport v) m4
+        {| x_learned := x_learned x; x_p := with_pins (x_p x) pins'; x_conns := x_conns x;
+           x_world := x_world x; x_outs := x_outs x |} /\
+    via_hdrs m4 = Some (stamp src sport v :: rest) :: t.
+Proof. first [ exact C02.C02_roundtrip_return | intros; eapply C02.C02_roundtrip_return; eassumption ]. Qed.
+Theorem C02_roundtrip : forall e src sport from tcp q x x' v rest t,
+  is_request q = true -> via_hdrs q = Some (v :: rest) :: t -> (int_min <= sport <= int_max)%Z ->
+  process_message e src sport from true tcp q x = Ok x' ->
+  exists outs, x_outs x' = x_outs x ++ outs /\
+    Forall (fun o =>
+      match fst o with
+      | DDial _ _ _ => snd o = []
+      | _ => exists q', snd o = write_message q' /\
+          (via_hdrs q' = Some (stamp src sport v :: rest) :: t
+           \/ exists t0, via_hdrs q' = Some [own_via (e_branch e) t0] :: Some (stamp src sport v :: rest) :: t /\
+                forall e2 from2 r y, is_response r = true -> via_hdrs r = via_hdrs q' ->
+                  exists m4 pins',
+                    handle_message e2 from2 r y =
+                      send_message e2 src (if kv_has (s2b "rport") (v_params v) then sport else via_get_port v)
+                        (v_transport v) m4
+                        {| x_learned := x_learned y; x_p := with_pins (x_p y) pins'; x_conns := x_conns y;
+                           x_world := x_world y; x_outs := x_outs y |} /\
+                    via_hdrs m4 = Some (stamp src sport v :: rest) :: t)
+      end) outs.
+Proof. first [ exact C02.C02_roundtrip | intros; eapply C02.C02_roundtrip; eassumption ]. Qed.
+Theorem C02_process_response : forall e peer port from rs tcp m0 x x',
+  is_response m0 = true ->
+  process_message e peer port from rs tcp m0 x = Ok x' ->
+  match top_view (pop_view (via_hdrs m0)) with
+  | Some v2 =>
+      exists m4 pins',
+        x' = fst (send_message e (hop_host v2) (hop_port v2) (v_transport v2) m4
+                   {| x_learned := x_learned x; x_p := with_pins (x_p x) pins'; x_conns := x_conns x;
+                      x_world := x_world x; x_outs := x_outs x |}) /\
+        m_start m4 = m_start m0 /\ m_body m4 = m_body m0 /\ via_hdrs m4 = pop_view (via_hdrs m0)
+  | None => x_outs x' = x_outs x /\ x_conns x' = x_conns x /\ x_world x' = x_world x /\ x_learned x' = x_learned x
+  end.
+Proof. first [ exact C02.C02_process_response | intros; eapply C02.C02_process_response; eassumption ]. Qed.
+End P_C02.
+
+(* ------------------------------------------------------------------ C06 *)
+From Model Require Import Bytes Wire Uri Hdr Message Msg StaticRoute RoundRobin Pins Proxy RunProxy SpecC14 SpecProxy SpecProxy2.
+From Model.proofs Require C06 C13 C03.
+Section P_C06.
+Import C06 C13 C03.
+Theorem C06_via_pushed : forall e t m,
+  let k := via_pos m in
+  m_headers (px_add_via e t m) = firstn k (m_headers m) ++ pushed_via_header e t :: skipn k (m_headers m) /\
+  m_start (px_add_via e t m) = m_start m /\ m_body (px_add_via e t m) = m_body m /\
+  sel (s2b "Via") (m_headers (px_add_via e t m)) = pushed_via_header e t :: sel (s2b "Via") (m_headers m) /\
+  all_vias (m_headers (px_add_via e t m)) = pushed_via e t :: all_vias (m_headers m) /\
+  (forall nm, same_header (s2b "Via") nm = false -> frame nm m (px_add_via e t m)).
+Proof. first [ exact C06.C06_via_pushed | intros; eapply C06.C06_via_pushed; eassumption ]. Qed.
+Theorem C06_via_position : forall e t m,
+  let k := via_pos m in
+  (k <= List.length (m_headers m))%nat /\
+  nth_error (m_headers (px_add_via e t m)) k = Some (pushed_via_header e t) /\
+  firstn k (m_headers (px_add_via e t m)) = firstn k (m_headers m) /\
+  skipn (S k) (m_headers (px_add_via e t m)) = skipn k (m_headers m) /\
+  sel (s2b "Via") (firstn k (m_headers m)) = [] /\
+  (sel (s2b "Via") (m_headers m) = [] -> k = O) /\
+  (sel (s2b "Via") (m_headers m) <> [] ->
+     exists h r, skipn k (m_headers m) = h :: r /\ same_header (h_name h) (s2b "Via") = true).
+Proof. first [ exact C06.C06_via_position | intros; eapply C06.C06_via_position; eassumption ]. Qed.
+Theorem C06_branch : forall e t, via_get_branch (pushed_via e t) = Some (e_branch e).
+Proof. first [ exact C06.C06_branch | intros; eapply C06.C06_branch; eassumption ]. Qed.
+Theorem C06_rr_policy : forall must t m,
+  if (has_header (s2b "Record-Route") m || must)%bool then
+    let k := find_record_route_pos (m_headers m) in
+    m_headers (px_add_record_route must t m)
+      = firstn k (m_headers m) ++ own_rr_header t :: skipn k (m_headers m) /\
+    m_start (px_add_record_route must t m) = m_start m /\ m_body (px_add_record_route must t m) = m_body m /\
+    sel (s2b "Record-Route") (m_headers (px_add_record_route must t m))
+      = own_rr_header t :: sel (s2b "Record-Route") (m_headers m) /\
+    all_rr (m_headers (px_add_record_route must t m)) = own_record_route t :: all_rr (m_headers m) /\
+    (forall nm, same_header (s2b "Record-Route") nm = false -> frame nm m (px_add_record_route must t m))
+  else px_add_record_route must t m = m.
+Proof. first [ exact C06.C06_rr_policy | intros; eapply C06.C06_rr_policy; eassumption ]. Qed.
+Theorem C06_rr_position : forall must t m,
+  (has_header (s2b "Record-Route") m || must)%bool = true ->
+  let k := find_record_route_pos (m_headers m) in
+  (k <= List.length (m_headers m))%nat /\
+  nth_error (m_headers (px_add_record_route must t m)) k = Some (own_rr_header t) /\
+  firstn k (m_headers (px_add_record_route must t m)) = firstn k (m_headers m) /\
+  skipn (S k) (m_headers (px_add_record_route must t m)) = skipn k (m_headers m) /\
+  sel (s2b "Record-Route") (firstn k (m_headers m)) = [] /\
+  (has_header (s2b "Record-Route") m = true ->
+     exists h r, skipn k (m_headers m) = h :: r /\ same_header (h_name h) (s2b "Record-Route") = true).
+Proof. first [ exact C06.C06_rr_position | intros; eapply C06.C06_rr_position; eassumption ]. Qed.
+Theorem C06_rr_flat : forall must t m,
+  all_rr (m_headers (px_add_record_route must t m)) =
+  if (has_header (s2b "Record-Route") m || must)%bool then own_record_route t :: all_rr (m_headers m)
+  else all_rr (m_headers m).
+Proof. first [ exact C06.C06_rr_flat | intros; eapply C06.C06_rr_flat; eassumption ]. Qed.
+Theorem C06_own_record_route_text : forall t, t_port t <> 0 ->
+  route_print [own_record_route t] = s2b "<sip:" ++ t_addr t ++ ":"%char :: itoa (t_port t) ++ s2b ";lr>".
+Proof. first [ exact C06.own_record_route_text | intros; eapply C06.own_record_route_text; eassumption ]. Qed.
+Theorem C06_decorate_learned : forall e l host t m,
+  alookup host l = Some t ->
+  all_vias (m_headers (decorate e l host m)) = pushed_via e t :: all_vias (m_headers m) /\
+  all_rr (m_headers (decorate e l host m)) =
+    (if (has_header (s2b "Record-Route") m || pa_must_rr (wire_proxy (e_lc e)))%bool
+     then own_record_route t :: all_rr (m_headers m) else all_rr (m_headers m)) /\
+  m_start (decorate e l host m) = m_start m /\ m_body (decorate e l host m) = m_body m /\
+  (forall nm, same_header (s2b "Via") nm = false -> same_header (s2b "Record-Route") nm = false ->
+              frame nm m (decorate e l host m)).
+Proof. first [ exact C06.C06_decorate_learned | intros; eapply C06.C06_decorate_learned; eassumption ]. Qed.
+Theorem C06_not_learned_untouched : forall e l host m, alookup host l = None -> decorate e l host m = m.
+Proof. first [ exact C06.C06_not_learned_untouched | intros; eapply C06.C06_not_learned_untouched; eassumption ]. Qed.
+Theorem C06_backend_decorates : forall e t0 p m,
+  all_vias (m_headers (backend_message e t0 p m)) = pushed_via e t0 :: all_vias (m_headers m) /\
+  all_rr (m_headers (backend_message e t0 p m)) =
+    (if (has_header (s2b "Record-Route") m || pa_must_rr (wire_proxy (e_lc e)))%bool
+     then own_record_route t0 :: all_rr (m_headers m) else all_rr (m_headers m)).
+Proof. first [ exact C06.C06_backend_decorates | intros; eapply C06.C06_backend_decorates; eassumption ]. Qed.
+Theorem C06_branch_of_inj : forall a b, branch_of a = branch_of b -> a = b.
+Proof. first [ exact C06.branch_of_inj | intros; eapply C06.branch_of_inj; eassumption ]. Qed.
+Theorem C06_branch_of_cookie : forall n, has_prefix (s2b "z9hG4bK") (branch_of n) = true.
+Proof. first [ exact C06.branch_of_cookie | intros; eapply C06.branch_of_cookie; eassumption ]. Qed.
+Theorem C06_branches_distinct : forall e0 n, NoDup (map branch_of (seq e0 n)).
+Proof. first [ exact C06.C06_branches_distinct | intros; eapply C06.C06_branches_distinct; eassumption ]. Qed.
+Theorem C06_learn_lookup : forall k ip t l,
+  alookup k (learn ip t l) =
+  if beq k ip
+  then Some (match alookup ip l with
+             | Some old => if same_transport old t then old else t
+             | None => t
+             end)
+  else alookup k l.
+Proof. first [ exact C06.learn_lookup | intros; eapply C06.learn_lookup; eassumption ]. Qed.
+Theorem C06_learning : forall e peer peer_port from rs tcp m0 x x',
+  process_message e peer peer_port from rs tcp m0 x = Ok x' ->
+  x_learned x' =
+  if (is_request m0 && negb (amem peer (ps_backends (x_p x))))%bool
+  then fold_left (fun l h => learn h from l) (peer :: map v_host (all_vias (m_headers m0))) (x_learned x)
+  else x_learned x.
+Proof. first [ exact C06.C06_learning | intros; eapply C06.C06_learning; eassumption ]. Qed.
+Theorem C06_learning_response : forall e peer peer_port from rs tcp m0 x x',
+  is_request m0 = false ->
+  process_message e peer peer_port from rs tcp m0 x = Ok x' -> x_learned x' = x_learned x.
+Proof. first [ exact C06.C06_learning_response | intros; eapply C06.C06_learning_response; eassumption ]. Qed.
+Theorem C06_relayed_request : forall e peer peer_port from rs tcp m0 x x',
+  is_request m0 = true ->
+  process_message e peer peer_port from rs tcp m0 x = Ok x' ->
+  exists m1 extra, x_outs x' = x_outs x ++ extra /\ (msg_count extra <= 1)%nat /\ via_rel m0 m1 /\
+    let rr_of t := if (has_header (s2b "Record-Route") m0 || pa_must_rr (wire_proxy (e_lc e)))%bool
+                   then own_record_route t :: all_rr (m_headers m0) else all_rr (m_headers m0) in
+    forall o, In o extra -> is_msg o = true ->
+      exists mo, snd o = write_message mo /\
+        match effective_hop (e_cfg e) from m0 with
+        | HopAddr host _ _ =>
+            match alookup host (learned_after peer from m0 x) with
+            | Some t => all_vias (m_headers mo) = pushed_via e t :: all_vias (m_headers m1) /\
+                        all_rr (m_headers mo) = rr_of t
+            | None => all_vias (m_headers mo) = all_vias (m_headers m1) /\
+                      all_rr (m_headers mo) = all_rr (m_headers m0)
+            end
+        | HopBackend =>
+            exists t0, first_transport (e_lc e) = Some t0 /\
+                       all_vias (m_headers mo) = pushed_via e t0 :: all_vias (m_headers m1) /\
+                       all_rr (m_headers mo) = rr_of t0
+        | _ => False
+        end.
+Proof. first [ exact C03.C06_relayed_request | intros; eapply C03.C06_relayed_request; eassumption ]. Qed.
+End P_C06.
+
+(* ------------------------------------------------------------------ C13 *)
+From Model Require Import Bytes Wire Uri Hdr Message Msg StaticRoute RoundRobin Pins Proxy RunProxy SpecC14 SpecProxy SpecProxy2.
+From Model.proofs Require C06 C13.
+Section P_C13.
+Import C06 C13.
+Theorem C13_own_popped_iff : forall c from m,
+  route_view (fst (mtry (try_remove_top_route c from) m)) =
+  match route_view m with
+  | EDec e1 :: rest => if designates c from e1 then rest else route_view m
+  | _ => route_view m
+  end.
+Proof. first [ exact C13.try_remove_top_route_pops_iff_own | intros; eapply C13.try_remove_top_route_pops_iff_own; eassumption ]. Qed.
+Theorem C13_next_hop_popped_iff_not_keep : forall keep m,
+  match route_view m with
+  | EDec rp :: rest =>
+      route_view (fst (next_hop_by_route keep m)) = (if keep then EDec rp :: rest else rest) /\
+      snd (next_hop_by_route keep m) =
+        match na_addr (r_addr rp) with
+        | ASip u => Ok (u_host u, sip_uri_get_port u, sip_uri_transport u)
+        | AAbs _ => Err
+        end
+  | _ => route_view (fst (next_hop_by_route keep m)) = route_view m /\ is_ok (snd (next_hop_by_route keep m)) = false
+  end.
+Proof. first [ exact C13.next_hop_by_route_pops_iff_not_keep | intros; eapply C13.next_hop_by_route_pops_iff_not_keep; eassumption ]. Qed.
+Theorem C13_route : forall e peer peer_port from rs tcp m0 x x',
+  is_request m0 = true ->
+  process_message e peer peer_port from rs tcp m0 x = Ok x' ->
+  exists extra, x_outs x' = x_outs x ++ extra /\ (msg_count extra <= 1)%nat /\
+    forall o, In o extra -> is_msg o = true ->
+      exists mo, snd o = write_message mo /\
+                 route_view mo = skipn (route_consumed (e_cfg e) from (c_keep_next_hop (e_cfg e)) (route_view m0))
+                                       (route_view m0).
+Proof. first [ exact C13.C13_route | intros; eapply C13.C13_route; eassumption ]. Qed.
+Theorem C13_route_decoded : forall e peer peer_port from rs tcp m0 x x' entries,
+  is_request m0 = true ->
+  route_view m0 = map EDec entries ->
+  process_message e peer peer_port from rs tcp m0 x = Ok x' ->
+  let own := own_of (e_cfg e) from entries in
+  let remaining := if own then tl entries else entries in
+  let k := ((if own then 1 else 0) +
+            (match remaining with _ :: _ => if c_keep_next_hop (e_cfg e) then 0 else 1 | [] => 0 end))%nat in
+  exists extra, x_outs x' = x_outs x ++ extra /\ (msg_count extra <= 1)%nat /\
+    forall o, In o extra -> is_msg o = true ->
+      exists mo, snd o = write_message mo /\ route_view mo = map EDec (skipn k entries).
+Proof. first [ exact C13.C13_route_decoded | intros; eapply C13.C13_route_decoded; eassumption ]. Qed.
+Theorem C13_route_view_grammar : forall l, l <> [] -> forallb wf_relem l = true ->
+  hval_entries (HRaw (rp_route l)) = map EDec (map C14_hdr.embed_relem l).
+Proof. first [ exact C13.route_view_grammar | intros; eapply C13.route_view_grammar; eassumption ]. Qed.
+Theorem C13_route_header_text : forall l, forallb wf_relem l = true ->
+  hval_print (HRoute (map C14_hdr.embed_relem l)) = rp_route l.
+Proof. first [ exact C13.route_header_text | intros; eapply C13.route_header_text; eassumption ]. Qed.
+End P_C13.
+
+(* ------------------------------------------------------------------ C03 *)
+From Model Require Import Bytes Wire Uri Hdr Message Msg StaticRoute RoundRobin Pins Proxy RunProxy SpecC14 SpecProxy SpecProxy2.
+From Model.proofs Require C06 C13 C03.
+Section P_C03.
+Import C06 C13 C03.
+Theorem C03_at_most_one : forall e peer peer_port from rs tcp m x x',
+  process_message e peer peer_port from rs tcp m x = Ok x' ->
+  exists extra, x_outs x' = x_outs x ++ extra /\ (msg_count extra <= 1)%nat.
+Proof. first [ exact C03.C03_at_most_one | intros; eapply C03.C03_at_most_one; eassumption ]. Qed.
+Theorem C03_at_most_one_udp : forall fx c now branch st li src sport data st' outs,
+  proxy_step fx c now branch st (EvUdp li src sport data) = Ok (st', outs) -> (msg_count outs <= 1)%nat.
+Proof. first [ exact C03.C03_at_most_one_udp | intros; eapply C03.C03_at_most_one_udp; eassumption ]. Qed.
+Theorem C03_at_most_one_tcp : forall fx c now branch st cid data st' outs,
+  proxy_step fx c now branch st (EvTcpData cid data) = Ok (st', outs) ->
+  exists chunks, outs = List.concat chunks /\
+                 (List.length chunks <= List.length (parse_stream (S (List.length data)) data))%nat /\
+                 Forall (fun ch => (msg_count ch <= 1)%nat) chunks.
+Proof. first [ exact C03.C03_at_most_one_tcp | intros; eapply C03.C03_at_most_one_tcp; eassumption ]. Qed.
+Theorem C03_choice : forall e peer peer_port from rs tcp m0 x x',
+  is_request m0 = true ->
+  process_message e peer peer_port from rs tcp m0 x = Ok x' ->
+  exists m1 p1,
+    let x1 := {| x_learned := learned_after peer from m0 x; x_p := p1; x_conns := x_conns x;
+                 x_world := x_world x; x_outs := x_outs x |} in
+    same_rr (x_p x) p1 /\
+    (forall nm, disjoint_names nm (s2b "Via") -> disjoint_names nm (s2b "CSeq") ->
+                disjoint_names nm (s2b "Route") -> disjoint_names nm (s2b "To") -> frame nm m0 m1) /\
+    via_rel m0 m1 /\
+    route_view m1 = skipn (route_consumed (e_cfg e) from (c_keep_next_hop (e_cfg e)) (route_view m0)) (route_view m0) /\
+    match effective_hop (e_cfg e) from m0 with
+    | HopAddr host port transport =>
+        x' = fst (send_message e host port transport (decorate e (x_learned x1) host m1) x1)
+    | HopBackend => x' = fst (send_to_backend e m1 x1)
+    | HopNone => x' = x1
+    | HopOut => False
+    end.
+Proof. first [ exact C03.C03_choice | intros; eapply C03.C03_choice; eassumption ]. Qed.
+Theorem C03_choice_outputs : forall e peer peer_port from rs tcp m0 x x',
+  is_request m0 = true ->
+  process_message e peer peer_port from rs tcp m0 x = Ok x' ->
+  exists extra, x_outs x' = x_outs x ++ extra /\ (msg_count extra <= 1)%nat /\
+    match effective_hop (e_cfg e) from m0 with
+    | HopAddr host port transport =>
+        (* only through the client transport for (transport, host, port); nothing for a
+           transport other than udp / tcp *)
+        supported_proto (to_lower transport) = false -> extra = []
+    | HopBackend =>
+        extra = [] \/ exists a d b, extra = [(d, b)] /\ backend_dest a = Some d /\
+                                    (In a (rr_backends (ps_rr (x_p x))) \/ exists g, backend_alive a g (x_p x) = true)
+    | HopNone => extra = []
+    | HopOut => False
+    end.
+Proof. first [ exact C03.C03_choice_outputs | intros; eapply C03.C03_choice_outputs; eassumption ]. Qed.
+Theorem C03_non_sip_route : forall c from m rp rest s,
+  remaining_routes c from m = EDec rp :: rest -> na_addr (r_addr rp) = AAbs s ->
+  choose_hop c from m = HopOut /\ effective_hop c from m = lower_choice c from m /\
+  forall keep, route_consumed c from keep (route_view m) =
+               ((match route_view m with EDec e1 :: _ => if designates c from e1 then 1 else 0 | _ => 0 end) +
+                (if keep then 0 else 1))%nat.
+Proof. first [ exact C03.C03_non_sip_route | intros; eapply C03.C03_non_sip_route; eassumption ]. Qed.
+Theorem C03_backend_member : forall e m x,
+  (forall a g, pinned_backend e (x_p x) m <> Some (BObj a g)) ->
+  exists extra, x_outs (fst (send_to_backend e m x)) = x_outs x ++ extra /\
+    (extra = [] \/ exists a d b, extra = [(d, b)] /\ In a (rr_backends (ps_rr (x_p x))) /\ backend_dest a = Some d) /\
+    (rr_backends (ps_rr (x_p x)) = [] -> extra = []).
+Proof. first [ exact C03.C03_backend_member | intros; eapply C03.C03_backend_member; eassumption ]. Qed.
+Theorem C03_backend_member_event : forall e peer peer_port from rs tcp m0 x x',
+  is_request m0 = true ->
+  process_message e peer peer_port from rs tcp m0 x = Ok x' ->
+  effective_hop (e_cfg e) from m0 = HopBackend ->
+  exists m1 p1, same_rr (x_p x) p1 /\
+    ((forall a g, pinned_backend e p1 m1 <> Some (BObj a g)) ->
+     exists extra, x_outs x' = x_outs x ++ extra /\
+       (extra = [] \/ exists a d b, extra = [(d, b)] /\ In a (rr_backends (ps_rr (x_p x))) /\ backend_dest a = Some d) /\
+       (rr_backends (ps_rr (x_p x)) = [] -> extra = [])).
+Proof. first [ exact C03.C03_backend_member_event | intros; eapply C03.C03_backend_member_event; eassumption ]. Qed.
+Theorem C03_unsupported_transport_dropped : forall e host port transport m x,
+  to_lower transport <> s2b "udp" -> to_lower transport <> s2b "tcp" ->
+  x_outs (fst (send_message e host port transport m x)) = x_outs x.
+Proof. first [ exact C03.C03_unsupported_transport_dropped | intros; eapply C03.C03_unsupported_transport_dropped; eassumption ]. Qed.
+Theorem C03_unsupported_transport_event : forall e peer peer_port from rs tcp m0 x x' host port transport,
+  is_request m0 = true ->
+  process_message e peer peer_port from rs tcp m0 x = Ok x' ->
+  effective_hop (e_cfg e) from m0 = HopAddr host port transport ->
+  to_lower transport <> s2b "udp" -> to_lower transport <> s2b "tcp" ->
+  x_outs x' = x_outs x.
+Proof. first [ exact C03.C03_unsupported_transport_event | intros; eapply C03.C03_unsupported_transport_event; eassumption ]. Qed.
+Theorem C03_b1_legacy_refuted :
+  effective_hop cfgA ex_from (msg_of b1_req) = HopAddr (s2b "10.0.0.5") 5070 (s2b "tcp") /\
+  dests (run1 b1_fixes cfgA [(s2b "10.0.0.5", 5070)] b1_req) = [DUdp (s2b "10.0.0.5") 5070] /\
+  dests (run1 all_fixed cfgA [(s2b "10.0.0.5", 5070)] b1_req) = [DDial (s2b "10.0.0.5") 5070 0; DConn 0].
+Proof. first [ exact C03.C03_b1_legacy_refuted | intros; eapply C03.C03_b1_legacy_refuted; eassumption ]. Qed.
+End P_C03.
+
+(* ------------------------------------------------------------------ C08 *)
+From Model Require Import Bytes Wire Uri Hdr Message Msg StaticRoute RoundRobin Pins Proxy RunProxy SpecC14 SpecProxy SpecProxy2.
+From Model.proofs Require C08.
+Section P_C08.
+Import C08.
+Local Close Scope Z_scope.
+Theorem C08_process_message_ok : forall e peer pp from rs tcp m0 x,
+  fx_bracket_host (e_fx e) = true ->
+  exists x', process_message e peer pp from rs tcp m0 x = Ok x'.
+Proof. first [ exact C08.C08_process_message_ok | intros; eapply C08.C08_process_message_ok; eassumption ]. Qed.
+Theorem C08_process_message_no_panic : forall e peer pp from rs tcp m0 x,
+  fx_bracket_host (e_fx e) = true -> process_message e peer pp from rs tcp m0 x <> Panic.
+Proof. first [ exact C08.C08_process_message_no_panic | intros; eapply C08.C08_process_message_no_panic; eassumption ]. Qed.
+Theorem C08_tcp_messages_ok : forall fuel e c s x,
+  fx_bracket_host (e_fx e) = true -> exists x', tcp_messages fuel e c s x = Ok x'.
+Proof. first [ exact C08.C08_tcp_messages_ok | intros; eapply C08.C08_tcp_messages_ok; eassumption ]. Qed.
+Theorem C08_tcp_messages_no_panic : forall fuel e c s x,
+  fx_bracket_host (e_fx e) = true -> tcp_messages fuel e c s x <> Panic.
+Proof. first [ exact C08.C08_tcp_messages_no_panic | intros; eapply C08.C08_tcp_messages_no_panic; eassumption ]. Qed.
+Theorem C08_never_err_gen : forall fx c now branch st ev, fx_bracket_host fx = true ->
+  exists st' outs, proxy_step fx c now branch st ev = Ok (st', outs).
+Proof. first [ exact C08.C08_never_err_gen | intros; eapply C08.C08_never_err_gen; eassumption ]. Qed.
+Theorem C08_never_err : forall c now branch st ev,
+  exists st' outs, proxy_step all_fixed c now branch st ev = Ok (st', outs).
+Proof. first [ exact C08.C08_never_err | intros; eapply C08.C08_never_err; eassumption ]. Qed.
+Theorem C08_no_panic_gen : forall fx c now branch st ev, fx_bracket_host fx = true ->
+  proxy_step fx c now branch st ev <> Panic.
+Proof. first [ exact C08.C08_no_panic_gen | intros; eapply C08.C08_no_panic_gen; eassumption ]. Qed.
+Theorem C08_no_panic : forall c now branch st ev, proxy_step all_fixed c now branch st ev <> Panic.
+Proof. first [ exact C08.C08_no_panic | intros; eapply C08.C08_no_panic; eassumption ]. Qed.
+Theorem C08_legacy_refuted :
+  step2 legacy_bracket = Panic /\
+  (exists st', step2 all_fixed = Ok (st', []) /\ conn_open (st_conns st') 0 = true).
+Proof. first [ exact C08.C08_legacy_refuted | intros; eapply C08.C08_legacy_refuted; eassumption ]. Qed.
+Theorem C08_discard_udp : forall fx c now branch st li src sport data, undecodable data ->
+  proxy_step fx c now branch st (EvUdp li src sport data) = Ok (st, []).
+Proof. first [ exact C08.C08_discard_udp | intros; eapply C08.C08_discard_udp; eassumption ]. Qed.
+Theorem C08_discard_tcp : forall fx c now branch st cid data, garbage data ->
+  proxy_step fx c now branch st (EvTcpData cid data) =
+  Ok (if tcp_live c st cid then close_state cid st else st, []).
+Proof. first [ exact C08.C08_discard_tcp | intros; eapply C08.C08_discard_tcp; eassumption ]. Qed.
+Theorem C08_garbage_is_close : forall fx c now branch st cid data, garbage data -> tcp_live c st cid = true ->
+  proxy_step fx c now branch st (EvTcpData cid data) = proxy_step fx c now branch st (EvTcpClose cid).
+Proof. first [ exact C08.C08_garbage_is_close | intros; eapply C08.C08_garbage_is_close; eassumption ]. Qed.
+Theorem C08_tcp_garbage_after : forall d d1 m rest rest1 e c x,
+  parse_message d = Ok (m, rest) -> garbage rest ->
+  parse_message d1 = Ok (m, rest1) -> trim_left rest1 = [] ->
+  tcp_messages (S (List.length d)) e c d x =
+  rmap (close_ctx (cn_id c)) (tcp_messages (S (List.length d1)) e c d1 x).
+Proof. first [ exact C08.C08_tcp_garbage_after | intros; eapply C08.C08_tcp_garbage_after; eassumption ]. Qed.
+Theorem C08_discard_tcp_after : forall fx c now branch st cid d d1 m rest rest1 st1 outs1,
+  parse_message d = Ok (m, rest) -> garbage rest ->
+  parse_message d1 = Ok (m, rest1) -> trim_left rest1 = [] ->
+  tcp_live c st cid = true ->
+  proxy_step fx c now branch st (EvTcpData cid d1) = Ok (st1, outs1) ->
+  proxy_step fx c now branch st (EvTcpData cid d) = Ok (close_state cid st1, outs1).
+Proof. first [ exact C08.C08_discard_tcp_after | intros; eapply C08.C08_discard_tcp_after; eassumption ]. Qed.
+Theorem C08_serves_after : forall fx c st evs1 evs2 now branch li src sport d, undecodable d ->
+  run_steps fx c st (evs1 ++ (now, branch, EvUdp li src sport d) :: evs2) =
+  rmap (fun '(st', os) => (st', insert_at (List.length evs1) [] os)) (run_steps fx c st (evs1 ++ evs2)).
+Proof. first [ exact C08.C08_serves_after | intros; eapply C08.C08_serves_after; eassumption ]. Qed.
+Theorem C08_serves_after_tcp : forall fx c st evs1 evs2 now branch cid d st1 os1, garbage d ->
+  run_steps fx c st evs1 = Ok (st1, os1) ->
+  run_steps fx c st (evs1 ++ (now, branch, EvTcpData cid d) :: evs2) =
+  run_steps fx c st (evs1 ++ (if tcp_live c st1 cid then [(now, branch, EvTcpClose cid)]
+                              else [(now, branch, EvUdp 0 [] 0%Z [])]) ++ evs2).
+Proof. first [ exact C08.C08_serves_after_tcp | intros; eapply C08.C08_serves_after_tcp; eassumption ]. Qed.
+Theorem C08_output_bounded : forall fx c now branch st ev st' outs,
+  proxy_step fx c now branch st ev = Ok (st', outs) ->
+  count_msg outs <= msgs_in ev /\ List.length outs <= 2 * msgs_in ev.
+Proof. first [ exact C08.C08_output_bounded | intros; eapply C08.C08_output_bounded; eassumption ]. Qed.
+End P_C08.
+
+(* ------------------------------------------------------------------ C17 *)
+From Model Require Import Bytes Wire Uri Hdr Message Msg StaticRoute RoundRobin Pins Proxy RunProxy SpecC14 SpecProxy SpecProxy2.
+From Model.proofs Require C17.
+Section P_C17.
+Import C17.
+Local Close Scope Z_scope.
+Theorem C17_same_header_equiv : forall n1 n2, same_header n1 n2 = true <-> canon n1 = canon n2.
+Proof. first [ exact C17.C17_same_header_equiv | intros; eapply C17.C17_same_header_equiv; eassumption ]. Qed.
+Theorem C17_same_header_refl : forall n, same_header n n = true.
+Proof. first [ exact C17.C17_same_header_refl | intros; eapply C17.C17_same_header_refl; eassumption ]. Qed.
+Theorem C17_same_header_sym : forall a b, same_header a b = same_header b a.
+Proof. first [ exact C17.C17_same_header_sym | intros; eapply C17.C17_same_header_sym; eassumption ]. Qed.
+Theorem C17_same_header_trans : forall a b c, same_header a b = true -> same_header b c = true -> same_header a c = true.
+Proof. first [ exact C17.C17_same_header_trans | intros; eapply C17.C17_same_header_trans; eassumption ]. Qed.
+Theorem C17_one_content_length : forall m,
+  List.length (filter (fun h => same_header (h_name h) (s2b "Content-Length")) (out_headers m)) = 1.
+Proof. first [ exact C17.C17_one_content_length | intros; eapply C17.C17_one_content_length; eassumption ]. Qed.
+Theorem C17_written_respelled : forall w1 w2, respelled w1 w2 ->
+  write_message w1 = start_line_print (m_start w1) ++ crlf ++ flat_map header_print (out_headers w1) ++ crlf ++ m_body w1 /\
+  write_message w2 = start_line_print (m_start w1) ++ crlf ++ flat_map header_print (out_headers w2) ++ crlf ++ m_body w1 /\
+  hs_rel (out_headers w1) (out_headers w2) /\
+  List.length (filter (fun h => same_header (h_name h) (s2b "Content-Length")) (out_headers w1)) = 1 /\
+  List.length (filter (fun h => same_header (h_name h) (s2b "Content-Length")) (out_headers w2)) = 1.
+Proof. first [ exact C17.C17_written_respelled | intros; eapply C17.C17_written_respelled; eassumption ]. Qed.
+Theorem C17_respell_invariance : forall e peer pp from rs tcp m1 m2 x1 x2,
+  respelled m1 m2 -> ctx_rel respelled x1 x2 ->
+  opt_rel respelled (pm_written e peer pp from rs tcp m1 x1) (pm_written e peer pp from rs tcp m2 x2) /\
+  (fits_opt (pm_written e peer pp from rs tcp m1 x1) = fits_opt (pm_written e peer pp from rs tcp m2 x2) ->
+   res_ctx_rel respelled (process_message e peer pp from rs tcp m1 x1) (process_message e peer pp from rs tcp m2 x2)).
+Proof. first [ exact C17.C17_respell_invariance | intros; eapply C17.C17_respell_invariance; eassumption ]. Qed.
+Theorem C17_respell_invariance_fun : forall s e peer pp from rs tcp m x, spelling s ->
+  opt_rel respelled (pm_written e peer pp from rs tcp (respell s m) x) (pm_written e peer pp from rs tcp m x) /\
+  (fits_opt (pm_written e peer pp from rs tcp (respell s m) x) = fits_opt (pm_written e peer pp from rs tcp m x) ->
+   res_ctx_rel respelled (process_message e peer pp from rs tcp (respell s m) x) (process_message e peer pp from rs tcp m x)).
+Proof. first [ exact C17.C17_respell_invariance_fun | intros; eapply C17.C17_respell_invariance_fun; eassumption ]. Qed.
+Theorem C17_relayout_invariance : forall e peer pp from rs tcp m1 m2 x1 x2,
+  relaid m1 m2 -> ctx_rel relaid x1 x2 ->
+  opt_rel relaid (pm_written e peer pp from rs tcp m1 x1) (pm_written e peer pp from rs tcp m2 x2) /\
+  (fits_opt (pm_written e peer pp from rs tcp m1 x1) = fits_opt (pm_written e peer pp from rs tcp m2 x2) ->
+   res_ctx_rel relaid (process_message e peer pp from rs tcp m1 x1) (process_message e peer pp from rs tcp m2 x2)).
+Proof. first [ exact C17.C17_relayout_invariance | intros; eapply C17.C17_relayout_invariance; eassumption ]. Qed.
+Theorem C17_written_relaid : forall w1 w2, relaid w1 w2 ->
+  m_start w1 = m_start w2 /\ m_body w1 = m_body w2 /\
+  flatten_vias w1 = flatten_vias w2 /\ flatten_routes w1 = flatten_routes w2 /\
+  plain_headers w1 = plain_headers w2.
+Proof. first [ exact C17.C17_written_relaid | intros; eapply C17.C17_written_relaid; eassumption ]. Qed.
+Theorem C17_pop_via_flat : forall m1 m2, relaid m1 m2 ->
+  flatten_vias (fst (s_pop_via m1)) = flatten_vias (fst (s_pop_via m2)) /\ snd (s_pop_via m1) = snd (s_pop_via m2) /\
+  flatten_vias m1 = flatten_vias m2 /\ snd (s_all_via_params m1) = snd (s_all_via_params m2) /\
+  snd (next_response_hop m1) = snd (next_response_hop m2).
+Proof. first [ exact C17.C17_pop_via_flat | intros; eapply C17.C17_pop_via_flat; eassumption ]. Qed.
+Theorem C17_route_layout : forall c from keep m1 m2, relaid m1 m2 ->
+  (snd (try_remove_top_route c from m1) = snd (try_remove_top_route c from m2) /\
+   flatten_routes (fst (try_remove_top_route c from m1)) = flatten_routes (fst (try_remove_top_route c from m2))) /\
+  (snd (next_hop_by_route keep m1) = snd (next_hop_by_route keep m2) /\
+   flatten_routes (fst (next_hop_by_route keep m1)) = flatten_routes (fst (next_hop_by_route keep m2))) /\
+  (snd (s_pop_route m1) = snd (s_pop_route m2) /\
+   flatten_routes (fst (s_pop_route m1)) = flatten_routes (fst (s_pop_route m2))).
+Proof. first [ exact C17.C17_route_layout | intros; eapply C17.C17_route_layout; eassumption ]. Qed.
+Theorem C17_respell_udp : forall fx c now br st li src sport d1 d2 m1 m2 r1 r2 lc p,
+  parse_message d1 = Ok (m1, r1) -> parse_message d2 = Ok (m2, r2) -> respelled m1 m2 ->
+  nth_opt (c_listens c) li = Some lc -> nth_p (st_proxies st) li = Some p ->
+  let e := mk_env fx c (item_rs_of (fx_wiring fx)) li lc now br in
+  let x := {| x_learned := st_learned st; x_p := p; x_conns := st_conns st; x_world := st_world st; x_outs := [] |} in
+  let from := {| t_kind := KUdp; t_addr := lc_addr lc; t_port := lc_udp lc |} in
+  fits_opt (pm_written e src sport from (e_item_rs e) None m1 x) = fits_opt (pm_written e src sport from (e_item_rs e) None m2 x) ->
+  match proxy_step fx c now br st (EvUdp li src sport d1), proxy_step fx c now br st (EvUdp li src sport d2) with
+  | Ok (st1, o1), Ok (st2, o2) => st1 = st2 /\ outs_rel respelled o1 o2
+  | Err, Err => True
+  | Panic, Panic => True
+  | _, _ => False
+  end.
+Proof. first [ exact C17.C17_respell_udp | intros; eapply C17.C17_respell_udp; eassumption ]. Qed.
+Theorem C17_relayout_udp : forall fx c now br st li src sport d1 d2 m1 m2 r1 r2 lc p,
+  parse_message d1 = Ok (m1, r1) -> parse_message d2 = Ok (m2, r2) -> relaid m1 m2 ->
+  nth_opt (c_listens c) li = Some lc -> nth_p (st_proxies st) li = Some p ->
+  let e := mk_env fx c (item_rs_of (fx_wiring fx)) li lc now br in
+  let x := {| x_learned := st_learned st; x_p := p; x_conns := st_conns st; x_world := st_world st; x_outs := [] |} in
+  let from := {| t_kind := KUdp; t_addr := lc_addr lc; t_port := lc_udp lc |} in
+  fits_opt (pm_written e src sport from (e_item_rs e) None m1 x) = fits_opt (pm_written e src sport from (e_item_rs e) None m2 x) ->
+  match proxy_step fx c now br st (EvUdp li src sport d1), proxy_step fx c now br st (EvUdp li src sport d2) with
+  | Ok (st1, o1), Ok (st2, o2) => st1 = st2 /\ outs_rel relaid o1 o2
+  | Err, Err => True
+  | Panic, Panic => True
+  | _, _ => False
+  end.
+Proof. first [ exact C17.C17_relayout_udp | intros; eapply C17.C17_relayout_udp; eassumption ]. Qed.
+End P_C17.
